@@ -88,6 +88,24 @@ def check_results(res, sa, period_format="vtl"):
     return list(uniq.items())
 
 
+def case_variant_names(script, structures):
+    """True when the script and the input structures together use two names that differ only in letter case."""
+    import json, pathlib, re
+    names = set(re.findall(r"[A-Za-z_][A-Za-z0-9_]*", script))
+    try:
+        items = structures if isinstance(structures, list) else [structures]
+        for it in items:
+            d = json.load(open(it)) if isinstance(it, (str, pathlib.Path)) else it
+            for ds in d.get("datasets", []):
+                names.add(ds["name"]); names.update(c["name"] for c in ds.get("DataStructure", []))
+    except Exception:
+        pass
+    low = {}
+    for n in names:
+        low.setdefault(n.lower(), set()).add(n)
+    return any(len(v) > 1 for v in low.values())
+
+
 def evaluate(part, src, run_kw, sa_kw, labels, fmt="vtl", extra=None):
     from vtlengine import run, semantic_analysis
     try:
@@ -113,6 +131,8 @@ def evaluate(part, src, run_kw, sa_kw, labels, fmt="vtl", extra=None):
                 key = "null_in_non_nullable:calc_if_then_else"   # the component is computed by an if-then-else (null condition)
         if key in ("column_set", "column_order") and re.search(r"\[\s*unpivot\b", run_kw["script"]):
             key += ":unpivot"
+        elif key == "column_set" and case_variant_names(run_kw["script"], sa_kw.get("data_structures")):
+            key += ":case_variant_names"   # same root cause as the C29 findings (identifiers are case-insensitive in DuckDB)
         part.fail(key, dict(source=src, script=run_kw["script"], format=fmt, **(extra or {})), what)
 
 
